@@ -8,6 +8,7 @@ import vlib
 
 LEVEL = "model_checking"
 PKG = "state/tstate"
+FILES = ["verif_tstate_test.go"]
 
 
 def sig(f):
@@ -16,7 +17,7 @@ def sig(f):
 
 
 def binding_tv(ctx, restricted, scenarios, depth, label):
-    rc, out = vlib.go_driver(ctx, PKG, "^TestVerifTStateRecord$",
+    rc, out = vlib.go_driver(ctx, PKG, "^TestVerifTStateRecord$", files=FILES,
                              env={"VERIF_SCENARIOS": scenarios, "VERIF_DEPTH": depth,
                                   "VERIF_SCOPES": "1" if restricted else "0"})
     if rc != 0:
@@ -50,7 +51,7 @@ def binding_mbt(ctx, cfg, num, label):
     p = os.path.join(ctx.work, "behaviours-%s.json" % label)
     with open(p, "w") as fh:
         json.dump(behs, fh)
-    rc, out = vlib.go_driver(ctx, PKG, "^TestVerifTStateReplay$", env={"VERIF_BEHAVIOURS": p})
+    rc, out = vlib.go_driver(ctx, PKG, "^TestVerifTStateReplay$", env={"VERIF_BEHAVIOURS": p}, files=FILES)
     rp = os.path.join(ctx.work, "out", "replay_result.json")
     if rc != 0 or not os.path.exists(rp):
         raise vlib.Infra("tstate replayer failed:\n" + out[-3000:])
